@@ -1127,3 +1127,148 @@ Proof.
   induction ops as [|o ops IH]; intros s Hg Hok; [exact Hg|].
   inversion Hok; subst. unfold run. simpl. apply IH; [apply step_good; assumption|assumption].
 Qed.
+
+(* ================================================================ the code as it is: counterexamples *)
+Lemma live_range_dec : forall s a m, 0 <= a -> 0 < m -> a + m <= nbits s -> len_z (bm s) = nbits s ->
+  all_range (bm s) a m true = true -> live_range s a m.
+Proof.
+  intros s a m H1 H2 H3 H4 H5. split; [exact H1|]. split; [exact H2|]. split; [exact H3|].
+  apply all_range_spec; [lia|lia|lia|exact H5].
+Qed.
+
+Definition v_current : variant := mkVariant false false false false.
+Definition v_fixed : variant := mkVariant true true true false.
+Definition fresh (v : variant) (strict' : bool) : fsm := snd (open_new v 6 0 0 strict').
+(* six 4-block regions, then exactly the free tail (which is the cached extent), then two adjacent releases *)
+Definition lfbk_witness : list op :=
+  [OAlloc 256 0 11 false; OAlloc 256 0 11 false; OAlloc 256 0 11 false; OAlloc 256 0 11 false;
+   OAlloc 256 0 11 false; OAlloc 256 0 11 false; OAlloc 2088960 0 11 false; OFree 1152 256; OFree 1408 256].
+
+Ltac dec_goal := vm_compute; first [reflexivity | (intro; discriminate)].
+
+(* executable form of client_ok / ok_run, for concrete histories *)
+Definition live_rangeb (s : fsm) (a m : Z) : bool :=
+  (0 <=? a) && (0 <? m) && (a + m <=? nbits s) && (len_z (bm s) =? nbits s) && all_range (bm s) a m true.
+Definition client_okb (s : fsm) (o : op) : bool :=
+  match o with
+  | OAlloc len hint opts ovr => has opts IWFSM_ALLOC_NO_EXTEND && (len <? 2 ^ 62)
+  | ORealloc nlen addr olen opts ovr => has opts IWFSM_ALLOC_NO_EXTEND && (0 <=? nlen) && (nlen <? 2 ^ 62) &&
+                                        live_rangeb s (shr addr (bpow s)) (shr olen (bpow s))
+  | OFree addr len => live_rangeb s (shr addr (bpow s)) (shr len (bpow s))
+  | OClear _ => false
+  | OSync => true
+  | OCloseReopen notrim _ _ => notrim
+  end.
+Fixpoint ok_runb (s : fsm) (ops : list op) : bool :=
+  match ops with
+  | [] => true
+  | o :: r => client_okb s o && ok_runb (state_of (step s o)) r
+  end.
+Lemma live_rangeb_sound : forall s a m, live_rangeb s a m = true -> live_range s a m.
+Proof.
+  intros s a m H. unfold live_rangeb in H. repeat (apply andb_true_iff in H; destruct H as [H ?]).
+  apply live_range_dec; try lia. assumption.
+Qed.
+Lemma client_okb_sound : forall s o, client_okb s o = true -> client_ok s o.
+Proof.
+  intros s [len hint opts ovr|nlen addr olen opts ovr|addr len|tr| |nt st mm] H; cbn [client_okb client_ok] in *.
+  - apply andb_true_iff in H. destruct H as [H1 H2]. apply Z.ltb_lt in H2. split; [exact H1|exact H2].
+  - repeat (apply andb_true_iff in H; destruct H as [H ?]). split; [exact H|]. split; [lia|apply live_rangeb_sound; assumption].
+  - apply live_rangeb_sound; exact H.
+  - discriminate.
+  - exact I.
+  - exact H.
+Qed.
+Lemma ok_runb_sound : forall ops s, ok_runb s ops = true -> ok_run s ops.
+Proof.
+  induction ops as [|o r IH]; intros s H; [constructor|]. simpl in H. apply andb_true_iff in H. destruct H as [H1 H2].
+  constructor; [apply client_okb_sound; exact H1|apply IH; exact H2].
+Qed.
+
+Lemma lfbk_witness_ok : forall v, v = v_current \/ v = v_fixed -> ok_run (fresh v false) lfbk_witness.
+Proof. intros v [-> | ->]; apply ok_runb_sound; vm_compute; reflexivity. Qed.
+
+(* the statement of tree_is_runs, false of the model of the code as it is *)
+Theorem tree_is_runs_refuted : exists ops, ok_run (fresh v_current false) ops /\
+  ~ (forall o n, In (n, o) (tree (run (fresh v_current false) ops)) <-> is_run (bm (run (fresh v_current false) ops)) o n).
+Proof.
+  exists lfbk_witness. split; [apply lfbk_witness_ok; left; reflexivity|]. intros H.
+  assert (Hin : In (8, 18) (tree (run (fresh v_current false) lfbk_witness))) by (vm_compute; left; reflexivity).
+  pose proof (proj1 (H 18 8) Hin) as Hr. destruct Hr as (_ & _ & _ & _ & _ & [He|He]); vm_compute in He; discriminate.
+Qed.
+(* ... and true after the fix on the same history *)
+Lemma lfbk_witness_fixed : tree (run (fresh v_fixed false) lfbk_witness) = [(46, 18)].
+Proof. vm_compute. reflexivity. Qed.
+
+(* ---- invalid releases *)
+Theorem deallocate_refuses : forall s addr len,
+  negb (Z.land addr (blkmask s) =? 0) = true \/ touches_meta s (shr addr (bpow s)) (shr len (bpow s)) = true ->
+  fst (deallocate s addr len) <> 0 /\ snd (deallocate s addr len) = s.
+Proof.
+  intros s addr len H. unfold deallocate. destruct (negb (Z.land addr (blkmask s) =? 0)); [split; [discriminate|reflexivity]|].
+  destruct H as [H|H]; [discriminate|]. rewrite H. split; [discriminate|reflexivity].
+Qed.
+
+(* strict mode after fixes/fsm-strict-dealloc.diff: a range with a free block in it is refused, nothing changes *)
+Theorem strict_release_refused : forall s a m, fx_strict (vr s) = true -> strict s = true ->
+  0 <= a -> 0 <= m -> a + m <= nbits s -> len_z (bm s) = nbits s ->
+  (exists i, a <= i < a + m /\ getb (bm s) i = false) ->
+  blk_deallocate s a m = (IWFS_ERROR_FSM_SEGMENTATION, s).
+Proof.
+  intros s a m Hfx Hst Ha Hm Hend Hlen (i & Hi & Hb).
+  assert (Hall : all_range (bm s) a m (negb false) = false).
+  { destruct (all_range (bm s) a m (negb false)) eqn:E; [|reflexivity].
+    pose proof (proj1 (all_range_spec (bm s) a m (negb false) ltac:(lia) ltac:(lia) ltac:(lia)) E) as E'.
+    rewrite E' in Hb by exact Hi. discriminate. }
+  assert (Hpre : fst (set_bit_status s a m false true true) = IWFS_ERROR_FSM_SEGMENTATION).
+  { unfold set_bit_status. replace (nbits s <? a + m) with false by lia. rewrite Hall. reflexivity. }
+  unfold blk_deallocate. rewrite Hfx, Hst. simpl andb. cbv iota. rewrite Hpre. reflexivity.
+Qed.
+(* the code as it is clears the allocated part of such a range before it reports the error *)
+Theorem strict_release_refused_refuted : exists s a m, strict s = true /\ 0 <= a /\ 0 <= m /\ a + m <= nbits s /\
+  len_z (bm s) = nbits s /\ (exists i, a <= i < a + m /\ getb (bm s) i = false) /\
+  fst (blk_deallocate s a m) <> 0 /\ bm (snd (blk_deallocate s a m)) <> bm s.
+Proof.
+  exists (state_of (step (fresh v_current true) (OAlloc 256 0 11 false))), 2, 5.
+  split; [reflexivity|]. split; [lia|]. split; [lia|]. split; [dec_goal|]. split; [vm_compute; reflexivity|].
+  split; [exists 6; split; [lia|vm_compute; reflexivity]|]. split; [vm_compute; discriminate|].
+  intros H. apply (f_equal (fun l => getb l 2)) in H. vm_compute in H. discriminate.
+Qed.
+
+(* a state satisfying all hypotheses of the theorems: a freshly created file, closed and reopened *)
+Lemma fresh_reopened_good : Good (reopen (fresh v_fixed false) false false).
+Proof.
+  apply reopen_good; [vm_compute; reflexivity|dec_goal| |reflexivity].
+  constructor; [dec_goal|]. exists 12. split; [reflexivity|]. split; dec_goal.
+Qed.
+
+(* ================================================================ corollaries exported to Properties_C10/C11 *)
+Theorem tree_is_runs_partial : forall ops s, Good s -> ok_run s ops ->
+  forall o n, In (n, o) (tree (run s ops)) <-> is_run (bm (run s ops)) o n.
+Proof. intros ops s Hg Hok. destruct (run_good ops s Hg Hok) as (Hi & _). apply (inv_runs _ Hi). Qed.
+
+Theorem reopen_same : forall s st mm, len_z (bm s) = nbits s -> nbits s <= FSM_BKEY_MAX -> WF s -> fx_lfbk (vr s) = true ->
+  Good (reopen s st mm) /\ bm (reopen s st mm) = bm s /\ bmoff (reopen s st mm) = bmoff s /\
+  bmlen (reopen s st mm) = bmlen s /\ hdrlen (reopen s st mm) = hdrlen s /\ bpow (reopen s st mm) = bpow s /\
+  (forall o n, In (n, o) (tree (reopen s st mm)) <-> is_run (bm s) o n).
+Proof.
+  intros s st mm Hlen Hu32 Hwf Hfx. split; [apply reopen_good; assumption|]. unfold reopen.
+  set (s0 := mkFsm (bm s) [] 0 0 (bmoff s) (bmlen s) (hdrlen s) (bpow s) (aunit s) (fsize s) (p_crzsum s) (p_crznum s)
+                   (p_crzsum s) (p_crznum s) st (mkVariant (fx_lfbk (vr s)) (fx_strict (vr s)) (fx_sync (vr s)) mm)).
+  destruct (load_fsm_spec s0 Hlen Hu32) as (F & _ & M & _). destruct F as (B1 & B2 & B3 & B4 & B5 & _).
+  split; [exact B1|]. split; [exact B2|]. split; [exact B3|]. split; [exact B4|]. split; [exact B5|]. exact M.
+Qed.
+
+(* a returned region never contains a block that was allocated before: header, bitmap, live regions *)
+Corollary alloc_avoids_allocated : forall s s' off olen i, allocated_from s s' off olen ->
+  getb (bm s) i = true -> ~ (off <= i < off + olen).
+Proof. intros s s' off olen i (_ & _ & _ & _ & _ & H & _) Hb Hi. rewrite H in Hb by exact Hi. discriminate. Qed.
+
+(* and changes the bitmap on exactly its own blocks, 0 -> 1 *)
+Corollary alloc_flips_only_own : forall s s' off olen i, allocated_from s s' off olen -> 0 <= i < nbits s ->
+  getb (bm s') i = if (off <=? i) && (i <? off + olen) then true else getb (bm s) i.
+Proof.
+  intros s s' off olen i (I & C & A1 & A2 & A3 & A4 & A5) Hi. rewrite A5.
+  pose proof (inv_len s' I) as Hl. rewrite A5, set_range_length in Hl. destruct C as (_ & _ & _ & C4 & _).
+  unfold nbits in *. rewrite C4 in Hl. apply getb_set_range; lia.
+Qed.
